@@ -198,3 +198,49 @@ def acc_init(prog, body, root, lm=None):
                 if v[0] in ("call", "callm"):
                     return v[1]
     return None
+
+
+@cached
+def dispatch(prog):
+    """WrapAlgorithm::wrap: which callee each variant reaches, with arguments."""
+    key = "crate::wrap_algorithms::WrapAlgorithm::wrap"
+    body = prog.need_body(key)
+    s = sym_of(body)
+    m = Model(body=body, key=key)
+    if not body.cfg.returns:
+        raise AnchorMissing(key + ": no return")
+    r = body.cfg.returns[0]
+    ret = s.val((0, ()), r, "term")
+    arms = {}
+    if ret[0] == "phi":
+        for p, v in s.phi_inputs(ret).items():
+            # which variant guards this predecessor?
+            from ..pred import facts_at
+            var = None
+            for a, pol in facts_at(prog, body, p):
+                if pol and a[0] == "variant":
+                    var = a[2]
+            arms[var] = prog.simp(v, body)
+    else:
+        arms[None] = prog.simp(ret, body)
+    m.arms = arms
+    m.words = ("param", 2, body.arg_names.get(2, "_2"))
+    m.widths = ("param", 3, body.arg_names.get(3, "_3"))
+    return m
+
+
+def f64_image_of(prog, term, src):
+    """term == src.iter().map(|w| *w as f64).collect()"""
+    from ..engines.schemas import closure_return_term
+    if term[0] != "call" or term[1] != "Iterator::collect":
+        return False
+    mp = term[2][0]
+    if mp[0] != "call" or mp[1] != "Iterator::map" or len(mp[2]) != 2:
+        return False
+    it, clo = mp[2]
+    if not (it[0] == "call" and it[1] in ("[]::iter", "Vec::iter") and it[2][0] == src):
+        return False
+    cb, ret = closure_return_term(prog, clo)
+    if cb is None:
+        return False
+    return ret[0] == "cast" and ret[1] == "IntToFloat" and ret[2][0] == "param" and ret[2][1] == 2
